@@ -93,22 +93,23 @@ Proof.
     Ltac as_eval := repeat match goal with
       | |- context [py_slice ?a ?b ?c] => let v := eval vm_compute in (py_slice a b c) in change (py_slice a b c) with v
       | |- context [py_zip ?a ?b] => let v := eval vm_compute in (py_zip a b) in change (py_zip a b) with v
+      | |- context [py_getitem (VList ?a) (VInt ?k)] => let v := eval vm_compute in (py_getitem (VList a) (VInt k)) in
+                                                      match v with Normal _ => change (py_getitem (VList a) (VInt k)) with v end
       end.
-    Ltac as_step := as_eval; cbn [as_loop py_iter bind bindS py_for py_lt truthy py_sub py_mod py_add py_str intop call unpack2]; as_eval.
+    Ltac as_step := as_eval; cbn [as_loop py_iter bind bindS py_for py_lt truthy py_sub py_mod py_add py_str intop call unpack2 py_bisect_right bisect_r option_map Z.of_nat Pos.of_succ_nat Pos.succ]; as_eval.
     as_step. replace (a <? 0) with false by (symmetry; apply Z.ltb_ge; lia). as_step.
-    destruct (a <? 64512) eqn:E1; as_step.
-    { replace (64512 - 0 =? 0) with false by reflexivity. as_step.
-      pose proof (Z.mod_pos_bound h (64512 - 0) ltac:(lia)). replace (h mod (64512 - 0) + 0 <? 0) with false by (symmetry; apply Z.ltb_ge; lia). reflexivity. }
-    destruct (a <? 65536) eqn:E2; as_step.
-    { replace (65536 - 64512 =? 0) with false by reflexivity. as_step.
-      pose proof (Z.mod_pos_bound h (65536 - 64512) ltac:(lia)). replace (h mod (65536 - 64512) + 64512 <? 0) with false by (symmetry; apply Z.ltb_ge; lia). reflexivity. }
-    destruct (a <? 4200000000) eqn:E3; as_step.
-    { replace (4200000000 - 65536 =? 0) with false by reflexivity. as_step.
-      pose proof (Z.mod_pos_bound h (4200000000 - 65536) ltac:(lia)). replace (h mod (4200000000 - 65536) + 65536 <? 0) with false by (symmetry; apply Z.ltb_ge; lia). reflexivity. }
-    destruct (a <? 4294967296) eqn:E4; as_step.
-    { replace (4294967296 - 4200000000 =? 0) with false by reflexivity. as_step.
-      pose proof (Z.mod_pos_bound h (4294967296 - 4200000000) ltac:(lia)). replace (h mod (4294967296 - 4200000000) + 4200000000 <? 0) with false by (symmetry; apply Z.ltb_ge; lia). reflexivity. }
-    reflexivity.
+    Ltac as_finish h := repeat first
+      [ progress as_step
+      | match goal with |- context [?p - ?q =? 0] => replace (p - q =? 0) with false by reflexivity end
+      | match goal with |- context [h mod ?m + ?b <? 0] =>
+          let H := fresh in pose proof (Z.mod_pos_bound h m ltac:(lia)) as H; replace (h mod m + b <? 0) with false by (symmetry; apply Z.ltb_ge; lia) end ];
+      reflexivity.
+    destruct (a <? 64512) eqn:E1; as_step; [as_finish h|].
+    destruct (a <? 65536) eqn:E2; as_step; [as_finish h|].
+    destruct (a <? 4200000000) eqn:E3; as_step; [as_finish h|].
+    destruct (a <? 4294967296) eqn:E4; as_step; [as_finish h|].
+    (* a >= 2^32 contradicts the range check above: unreachable whatever the code does here *)
+    exfalso. apply Z.ltb_ge in E4, Ebig. lia.
 Qed.
 Print Assumptions gen_as_replacement_refines.
 
